@@ -384,7 +384,46 @@ impl Gen {
     }
   }
 
+  /// a read list that permits exactly the current members, then an outsider joins (if the join list lets it) and the
+  /// members broadcast: the newcomer is a member but not a reader
+  fn plan_acl_late_joiner(&mut self) {
+    let chan = "!c1@localhost".to_string();
+    let id = self.id();
+    let nids: Vec<String> = ["alice@localhost", "bob@localhost", "carol@localhost"].iter().map(|s| s.to_string()).collect();
+    self.plan.push_back((Op::Recv(1, Req::SetAcl { id, chan: chan.clone(), ty: "read", act: "add", nids }), Self::ok_env()));
+    self.bump("setacl");
+    if self.rng.chance(1, 2) {
+      // make sure the outsider is not kept out by the join list
+      let id = self.id();
+      self.plan.push_back((Op::Recv(1, Req::SetAcl { id, chan: chan.clone(), ty: "join", act: "add", nids: vec!["dave@localhost".into()] }), Self::ok_env()));
+      self.bump("setacl");
+    }
+    let id = self.id();
+    self.plan.push_back((Op::Recv(1, Req::GetAcl { id, chan: chan.clone(), ty: "read", page: None, size: None }), Self::ok_env()));
+    self.bump("getacl");
+    let id = self.id();
+    self.plan.push_back((Op::Recv(4, Req::Join { id, chan: chan.clone(), ob: None }), Self::ok_env()));
+    self.bump("join");
+    for k in 1..=2usize {
+      let id = self.id();
+      let mut env = Self::ok_env();
+      if self.cfg.modulator.is_some() {
+        env.verdict = Some(VerdictS::Valid);
+      }
+      let payload = format!("late{}-{}", id, k).into_bytes();
+      self.plan.push_back((Op::Recv(k, Req::Broadcast { id, chan: chan.clone(), qos: None, payload }), env));
+      self.bump("broadcast");
+    }
+    let id = self.id();
+    self.plan.push_back((Op::Recv(4, Req::Leave { id, chan: chan.clone(), ob: None }), Self::ok_env()));
+    self.bump("leave");
+  }
+
   fn plan_acl_round(&mut self) {
+    if self.rng.chance(1, 5) {
+      self.plan_acl_late_joiner();
+      return;
+    }
     let chan = "!c1@localhost".to_string();
     let ty = *self.rng.pick(&["join", "publish", "read", "read"]);
     let act = if self.rng.chance(3, 5) { "add" } else { "remove" };
